@@ -162,6 +162,13 @@ fn handler_response(id: u32, params: &[&str], req: &Request) -> Response {
     let status = if ERRORING.with(|e| e.get()) && id % 4 == 0 { ohkami::Status::InternalServerError } else { ohkami::Status::OK };
     let mut res = Response::new(status).with_text(format!("h{id}|{}", params.join("|")));
     res.headers.set().x("X-Handler", id.to_string()).x("X-In", format!("[{}]", render_in(req)));
+    // (wave 17, C14) handlers whose id is 1 mod 3 state an origin of their own (the policy's, when PRESET_ORIGIN holds it):
+    // the policy has the last word on every response all the same
+    if id % 3 == 1 {
+        if let Some(o) = PRESET_ORIGIN.with(|p| p.borrow().clone()) {
+            res.headers.set().AccessControlAllowOrigin(o);
+        }
+    }
     res
 }
 
@@ -229,6 +236,8 @@ fn leak(s: &str) -> &'static str {
 thread_local! {
     /// C14: handlers whose id is a multiple of 4 answer 500 (an erroring handler)
     pub static ERRORING: std::cell::Cell<bool> = const { std::cell::Cell::new(false) };
+    /// C14: what some handlers put into `Access-Control-Allow-Origin` themselves (None: they do not)
+    pub static PRESET_ORIGIN: std::cell::RefCell<Option<String>> = const { std::cell::RefCell::new(None) };
 }
 
 /// like `build`, with `root_fangs` as the fangs of the outermost application (its own `fangs` must be empty)
